@@ -14,14 +14,20 @@ Stand-ins
                    top-level keys "chain" in {"default","Log","LogLin","Lin","solve"} and "symptom" in
                    {"exception","nonfinite","element_lost","negative","conservation","quotient",
                    "precipitation"} (first that applies, in that order).
+                   and "stopped_at": "non_root" when the delegated solver's own final residual is
+                   comparable with the defect found here (> 1e-3 of it), "root" when the solver did solve
+                   its equations (so the equations / the branch / the post-processing are wrong),
+                   "unknown" when no residual is reported.
                    RECORDED FINDINGS (genuine defects of the tree, fixed cases fire them on every run):
                    F-C08 (DESIGN section 9): chain "Lin" (NumSys=(NumSysLin,) alone) reports success and
-                   sanity for states that do not conserve / have Q != K (symptoms conservation, quotient);
-                   F-C08b: about 1 in 2000 default-chain (NumSysLog) calls does the same and loses a whole
-                   element (symptom element_lost).  Cause of both: the systems are over-determined
-                   (nr + #composition keys > ns), pyneqsys then uses scipy 'lm' whose success flag means
-                   "local minimum of |f|^2".  Violations of any other kind are sorted first so that they
-                   are never hidden behind the recorded ones (the reporter forwards three per stand-in).
+                   sanity for states that do not conserve / have Q != K in about 1 of 8 claims;
+                   F-C08b: the same happens on the logarithmic chains (default, (Log,), (Log,Lin),
+                   EqSystem.solve) in about 1 of 2500 calls, sometimes losing a whole element.  Cause of
+                   both: the systems are over-determined (nr + #composition keys > ns), pyneqsys then uses
+                   scipy 'lm', whose success flag means "local minimum of |f|^2 reached".  Signature of all
+                   of them: stopped_at == "non_root" and symptom in {conservation, quotient, element_lost}.
+                   Violations of any other kind are sorted first so that they are never hidden behind
+                   the recorded ones (the reporter forwards three per stand-in).
   success_rate     default chain reports success ∧ sane in >= 95 % of the homogeneous cases
                    (violation only when the sample has >= 40 cases).
   brentq_agreement single equilibria: solve_equilibrium (brentq on the reaction coordinate)
@@ -80,13 +86,13 @@ FIXED = [WITNESS, WITNESS_Q, WITNESS_B]
 
 
 def _recorded(v):
-    """Signature of the recorded findings F-C08 (chain Lin: conservation / quotient) and F-C08b (an element
-    lost, any chain).  Only used to ORDER the violations (anything else first): the reporter forwards the first
-    three per stand-in, and a new kind of violation must never be hidden behind the recorded ones."""
-    if v["symptom"] == "element_lost":
-        return "element_lost"
-    if v["chain"] == "Lin" and v["symptom"] in ("conservation", "quotient"):
-        return "Lin:" + v["symptom"]
+    """Signature of the recorded findings F-C08 / F-C08b: the delegated solver stopped at a point where its
+    OWN equations are not satisfied ("stopped_at": "non_root") and still reported success, the state then fails
+    conservation / Q = K / has lost an element.  Only used to ORDER the violations (anything else first): the
+    reporter forwards the first three per stand-in, and a new kind of violation must never be hidden behind the
+    recorded ones."""
+    if v.get("stopped_at") == "non_root" and v["symptom"] in ("conservation", "quotient", "element_lost"):
+        return v["symptom"]
     return None
 
 
@@ -436,7 +442,7 @@ def run(tier, seed):
                 "|B(x-x0)|_k <= 1e-6*sum|B_kj|(|x_j|+x0_j)+1e-12 for every element and charge, |ln Q_i - ln K_i| <= 1e-5 "
                 "for every homogeneous equilibrium, for a salt: (solid > 1e-10 and |ln IP - ln Ksp| <= 1e-5) or "
                 "(solid <= 1e-10 and IP <= Ksp(1+1e-5)); an exception is a violation; oracle from a hand-written "
-                "composition table.  Recorded findings: F-C08 (chain Lin: conservation / quotient), F-C08b (symptom element_lost)." % (len(P.POOL) - 2),
+                "composition table.  Recorded findings F-C08/F-C08b: stopped_at == non_root (solver's own residual not small) with symptom conservation / quotient / element_lost." % (len(P.POOL) - 2),
         "bound": "%d homogeneous + %d precipitation cases + 3 fixed witnesses, 5 solver paths each; <= 4 equilibria, <= 11 species; "
                  "measured: %d calls, %d claims of success and sane" % (len(homog), len(precip), calls, claims),
         "evaluations": calls,
